@@ -374,6 +374,20 @@ class SubjectAnalysis:
             if x.k == 'call' and x.callee_base() in ('get',) and x.n('object') is not None and (x.n('object').type or '').startswith('std::shared_ptr<'):
                 x = x.n('object'); continue
             if x.k == 'ref' and x.decl in decls: x = decls[x.decl]; continue
+            if x.k == 'ref' and x.dk == 'param' and g is not None:
+                # a helper that is handed the observer: follow the argument at its (single) call site in the class
+                pi = next((i for i, p_ in enumerate(g.d['params']) if p_['decl'] == x.decl), None)
+                sites = [(h, n) for h in self.facts.fns if h.d.get('classfull') == g.d.get('classfull') for n in h.nodes() if n.k == 'call' and n.callee_in_root and g in self.facts.resolve(n)]
+                if pi is not None and len(sites) == 1:
+                    h, n = sites[0]
+                    a = n.ns('args'); a = a[1:] if (n.ck == 'op' and 'mclass' in n.d) else a
+                    if pi < len(a) and a[pi] is not None:
+                        x = a[pi]; g = h
+                        for n2 in g.nodes():
+                            if n2.k == 'decl':
+                                for v in n2.vars:
+                                    if v.get('init') and v['init'] in n2.tu.ex: decls[v['decl']] = Node(n2.tu, v['init'])
+                        continue
             if x.k == 'member' and not (x.type or '').startswith('std::shared_ptr<') and x.n('base') is not None and not x.field: x = x.n('base'); continue
             break
         ty = ((x.type if x is not None else '') or '').replace('const ', '')
@@ -393,6 +407,19 @@ class SubjectAnalysis:
             if e.kind == 'call' and e.obj is not None and e.obj not in self.fields and e.name.split('::')[-1] in (INSERT_FRONT | INSERT_BACK): fills.append('front' if e.name.split('::')[-1] in INSERT_FRONT else 'back')
         rangector = [e for e in pre if e.kind == 'construct' and len(e.args) >= 2 and all(isinstance(a, Sym) for a in e.args[:2]) and e.args[0].name.startswith(OBS + '.') and e.args[1].name.startswith(OBS + '.')]
         fill = None
+        # the whole container copied: `Container snapshot(m_observers)` / `auto snapshot = m_observers`
+        def is_obs(a):
+            return (isinstance(a, Sym) and a.name.split('.')[-1] == OBS) or (isinstance(a, Ref) and a.loc[0] == 'f' and a.loc[1][-1] == OBS)
+        copied = [e for e in pre if e.kind in ('construct', 'decl') and ((e.kind == 'construct' and len(e.args) == 1 and is_obs(e.args[0])) or (e.kind == 'decl' and is_obs(e.val)))]
+        if copied and not fills and not rangector:
+            revs = sum(1 for e in pre if e.kind == 'call' and (e.name == 'std::reverse' or (e.name.split('::')[-1] == 'reverse' and e.obj is not None and e.obj not in self.fields)))
+            direction = None
+            if vis:
+                i = vis[0][0]
+                bs = {x.name.split('::')[-1] for x in E[max(0, i - 10):i] if x.kind == 'call' and x.obj == vis[0][1]}
+                if bs & {'rbegin', 'rend', 'crbegin', 'crend'}: direction = 'backward'
+                elif bs & {'begin', 'end', 'cbegin', 'cend'}: direction = 'forward'
+            return ('copy', revs, direction)
         if not fills and not rangector: return None          # nothing was put into a snapshot on this path (the abstraction does not relate the two loops' trip counts)
         if fills and len(set(fills)) == 1 and not rangector: fill = fills[0]
         elif rangector and not fills:
